@@ -54,6 +54,7 @@ static Vector pick_point(Rng& r, const IntervalVector& box) {
     double a = box[i].lb(), b = box[i].ub(); if (a == NEG_INFINITY) a = b - 8; if (b == POS_INFINITY) b = a + 8;
     switch (r.below(5)) { case 0: p[i] = a; break; case 1: p[i] = b; break; case 2: p[i] = box[i].is_unbounded() ? a : box[i].mid(); break;
       default: { double t = r.range(0, 16) / 16.0; double v = a + t * (b - a); if (v < a) v = a; if (v > b) v = b; p[i] = v; } }
+    if (r.coin(25)) { static const double sq[] = {0, 0.25, 1, 2.25, 4, 6.25, 0.0625, 0.5625}; double v = sq[r.below(8)]; if (box[i].contains(v)) p[i] = v; }
     if (!box[i].contains(p[i])) p[i] = a;
   }
   return p;
@@ -83,7 +84,7 @@ int main(int argc, char** argv) {
   Rng r(seed * 32452843 + 3);
   if (wl == "c02") {
     for (long it = 0; it < n; it++) {
-      GenCfg cfg; cfg.max_depth = r.range(1, 4); cfg.thick_consts = false; cfg.allow_vec = r.coin(70); cfg.allow_apply = r.coin(50);
+      GenCfg cfg; cfg.max_depth = r.range(1, 4); cfg.thick_consts = false; cfg.allow_vec = r.coin(70); cfg.allow_apply = r.coin(50); cfg.allow_sqrt = r.coin(40);
       int rows = 1, cols = 1;
       if (cfg.allow_vec) switch (r.below(5)) { case 0: rows = r.range(2, 3); break; case 1: cols = r.range(2, 3); break; case 2: rows = r.range(2, 3); cols = r.range(2, 3); break; default: break; }
       Built b;
